@@ -5,6 +5,7 @@ package graph
 import (
 	"context"
 	"fmt"
+	"reflect"
 	"sort"
 	"strings"
 	"sync"
@@ -13,43 +14,148 @@ import (
 	"go.opentelemetry.io/collector/component"
 	"go.opentelemetry.io/collector/component/componenttest"
 	"go.opentelemetry.io/collector/connector"
+	"go.opentelemetry.io/collector/connector/xconnector"
 	"go.opentelemetry.io/collector/consumer"
+	"go.opentelemetry.io/collector/consumer/xconsumer"
 	"go.opentelemetry.io/collector/exporter"
+	"go.opentelemetry.io/collector/exporter/xexporter"
+	"go.opentelemetry.io/collector/pdata/pcommon"
 	"go.opentelemetry.io/collector/pdata/plog"
+	"go.opentelemetry.io/collector/pdata/pmetric"
+	"go.opentelemetry.io/collector/pdata/pprofile"
+	"go.opentelemetry.io/collector/pdata/ptrace"
 	"go.opentelemetry.io/collector/pipeline"
+	"go.opentelemetry.io/collector/pipeline/xpipeline"
 	"go.opentelemetry.io/collector/processor"
+	"go.opentelemetry.io/collector/processor/xprocessor"
 	"go.opentelemetry.io/collector/receiver"
+	"go.opentelemetry.io/collector/receiver/xreceiver"
 	"go.opentelemetry.io/collector/service/internal/builders"
 	"go.opentelemetry.io/collector/service/pipelines"
 )
 
+// the four signals behind `any` payloads; the trail of mutating stages is kept in a resource attribute of resource 0
+type c06Sig struct {
+	name    string
+	sig     pipeline.Signal
+	newData func() any
+	attrs   func(any) pcommon.Map
+	isRO    func(any) bool
+	markRO  func(any)
+}
+
+func c06Sigs() []c06Sig {
+	return []c06Sig{
+		{"logs", pipeline.SignalLogs,
+			func() any {
+				d := plog.NewLogs()
+				d.ResourceLogs().AppendEmpty().Resource().Attributes().PutStr("trail", "")
+				return d
+			},
+			func(d any) pcommon.Map { return d.(plog.Logs).ResourceLogs().At(0).Resource().Attributes() },
+			func(d any) bool { return d.(plog.Logs).IsReadOnly() }, func(d any) { d.(plog.Logs).MarkReadOnly() }},
+		{"metrics", pipeline.SignalMetrics,
+			func() any {
+				d := pmetric.NewMetrics()
+				d.ResourceMetrics().AppendEmpty().Resource().Attributes().PutStr("trail", "")
+				return d
+			},
+			func(d any) pcommon.Map { return d.(pmetric.Metrics).ResourceMetrics().At(0).Resource().Attributes() },
+			func(d any) bool { return d.(pmetric.Metrics).IsReadOnly() }, func(d any) { d.(pmetric.Metrics).MarkReadOnly() }},
+		{"traces", pipeline.SignalTraces,
+			func() any {
+				d := ptrace.NewTraces()
+				d.ResourceSpans().AppendEmpty().Resource().Attributes().PutStr("trail", "")
+				return d
+			},
+			func(d any) pcommon.Map { return d.(ptrace.Traces).ResourceSpans().At(0).Resource().Attributes() },
+			func(d any) bool { return d.(ptrace.Traces).IsReadOnly() }, func(d any) { d.(ptrace.Traces).MarkReadOnly() }},
+		{"profiles", xpipeline.SignalProfiles,
+			func() any {
+				d := pprofile.NewProfiles()
+				d.ResourceProfiles().AppendEmpty().Resource().Attributes().PutStr("trail", "")
+				return d
+			},
+			func(d any) pcommon.Map { return d.(pprofile.Profiles).ResourceProfiles().At(0).Resource().Attributes() },
+			func(d any) bool { return d.(pprofile.Profiles).IsReadOnly() }, func(d any) { d.(pprofile.Profiles).MarkReadOnly() }},
+	}
+}
+
+func c06Ptr(d any) uintptr { return reflect.ValueOf(d).Field(0).Pointer() }
+
+// one object arriving at one consumer of one fan-out call
+type c06Entry struct {
+	who string // pipeline name (hop) or exporter / connector name (pfan)
+	ptr uintptr
+	ro  bool
+}
+
+// one fan-out call: a receiver or connector handing a payload to its pipelines ("hop"), or a pipeline handing it to its
+// exporters and connectors ("pfan")
+type c06Fan struct {
+	id      string
+	srcPtr  uintptr
+	srcRO   bool
+	entries []c06Entry
+}
+
+type c06Call struct {
+	trail string
+	data  any
+}
+
 // c06World: instrumented components. Names encode the declared capability: a trailing "m" means MutatesData.
 type c06World struct {
 	mu       sync.Mutex
-	recvNext map[string]consumer.Logs
-	atCall   map[string][]string // exporter name -> trails seen at call time
-	held     map[string][]plog.Logs
+	sg       c06Sig
+	recvNext map[string]any
+	calls    map[string][]c06Call // exporter name -> what it saw at call time + the object it holds
+	fans     map[string]*c06Fan
+	fanOrder []string
+	seq      int
+	panics   []string
 }
+
+type c06Key int
+
+const (
+	c06HopKey  c06Key = iota // id of the fan-out call source -> pipelines this payload travels in
+	c06PfanKey               // id of the fan-out call pipeline -> exporters/connectors
+)
 
 func c06Mut(name string) bool { return strings.HasSuffix(name, "m") }
 
-func c06Trail(ld plog.Logs) string {
-	v, _ := ld.ResourceLogs().At(0).Resource().Attributes().Get("trail")
+func (w *c06World) trail(d any) string {
+	v, _ := w.sg.attrs(d).Get("trail")
 	return v.Str()
 }
 
-var c06Panics []string
-
 // a declared mutator writes; a panic here means it was handed shared (read-only) data
-func c06Append(ld plog.Logs, tag string) {
+func (w *c06World) appendTag(d any, tag string) {
 	defer func() {
 		if r := recover(); r != nil {
-			c06Panics = append(c06Panics, tag)
+			w.panics = append(w.panics, tag)
 		}
 	}()
-	a := ld.ResourceLogs().At(0).Resource().Attributes()
+	a := w.sg.attrs(d)
 	v, _ := a.Get("trail")
 	a.PutStr("trail", v.Str()+">"+tag)
+}
+
+func (w *c06World) fan(id string, srcPtr uintptr, srcRO bool) {
+	if _, ok := w.fans[id]; !ok {
+		w.fans[id] = &c06Fan{id: id, srcPtr: srcPtr, srcRO: srcRO}
+		w.fanOrder = append(w.fanOrder, id)
+	}
+}
+
+func (w *c06World) enter(ctx context.Context, key c06Key, who string, d any) {
+	id, _ := ctx.Value(key).(string)
+	f := w.fans[id]
+	if f == nil {
+		return
+	}
+	f.entries = append(f.entries, c06Entry{who: who, ptr: c06Ptr(d), ro: w.sg.isRO(d)})
 }
 
 type c06Comp struct{}
@@ -57,50 +163,68 @@ type c06Comp struct{}
 func (c06Comp) Start(context.Context, component.Host) error { return nil }
 func (c06Comp) Shutdown(context.Context) error              { return nil }
 
-type c06Proc struct {
-	c06Comp
-	name string
-	next consumer.Logs
-}
-
-func (p *c06Proc) Capabilities() consumer.Capabilities { return consumer.Capabilities{MutatesData: c06Mut(p.name)} }
-func (p *c06Proc) ConsumeLogs(ctx context.Context, ld plog.Logs) error {
-	if c06Mut(p.name) {
-		c06Append(ld, p.name)
-	}
-	return p.next.ConsumeLogs(ctx, ld)
-}
-
-type c06Exp struct {
+// c06Node is every instrumented component; kind: 'q' probe processor (first in every pipeline, never mutates),
+// 'p' processor, 'e' exporter, 'c' connector
+type c06Node struct {
 	c06Comp
 	w    *c06World
+	kind byte
 	name string
+	next any
 }
 
-func (e *c06Exp) Capabilities() consumer.Capabilities { return consumer.Capabilities{MutatesData: c06Mut(e.name)} }
-func (e *c06Exp) ConsumeLogs(_ context.Context, ld plog.Logs) error {
-	e.w.mu.Lock()
-	e.w.atCall[e.name] = append(e.w.atCall[e.name], c06Trail(ld))
-	e.w.held[e.name] = append(e.w.held[e.name], ld)
-	e.w.mu.Unlock()
-	if c06Mut(e.name) {
-		c06Append(ld, e.name)
+func (n *c06Node) Capabilities() consumer.Capabilities {
+	return consumer.Capabilities{MutatesData: c06Mut(n.name)}
+}
+
+func (n *c06Node) handle(ctx context.Context, d any, fwd func(context.Context) error) error {
+	w := n.w
+	switch n.kind {
+	case 'q':
+		// entry of a pipeline: one consumer of the source's fan-out call; opens the pipeline's own fan-out call
+		w.enter(ctx, c06HopKey, n.name[1:], d)
+		w.seq++
+		id := fmt.Sprintf("pfan:%s#%d", n.name[1:], w.seq)
+		w.fan(id, c06Ptr(d), w.sg.isRO(d))
+		return fwd(context.WithValue(ctx, c06PfanKey, id))
+	case 'p':
+		if c06Mut(n.name) {
+			w.appendTag(d, n.name)
+		}
+		return fwd(ctx)
+	case 'c':
+		w.enter(ctx, c06PfanKey, n.name, d)
+		if c06Mut(n.name) {
+			w.appendTag(d, n.name)
+		}
+		w.seq++
+		id := fmt.Sprintf("hop:%s#%d", n.name, w.seq)
+		w.fan(id, c06Ptr(d), w.sg.isRO(d))
+		return fwd(context.WithValue(ctx, c06HopKey, id)) // passes the object it received straight on
+	default:
+		w.enter(ctx, c06PfanKey, n.name, d)
+		w.calls[n.name] = append(w.calls[n.name], c06Call{trail: w.trail(d), data: d})
+		if c06Mut(n.name) {
+			w.appendTag(d, n.name)
+		}
+		return nil
 	}
-	return nil
 }
 
-type c06Conn struct {
-	c06Comp
-	name string
-	next consumer.Logs
+func (n *c06Node) ConsumeLogs(ctx context.Context, d plog.Logs) error {
+	return n.handle(ctx, d, func(ctx context.Context) error { return n.next.(consumer.Logs).ConsumeLogs(ctx, d) })
 }
 
-func (c *c06Conn) Capabilities() consumer.Capabilities { return consumer.Capabilities{MutatesData: c06Mut(c.name)} }
-func (c *c06Conn) ConsumeLogs(ctx context.Context, ld plog.Logs) error {
-	if c06Mut(c.name) {
-		c06Append(ld, c.name)
-	}
-	return c.next.ConsumeLogs(ctx, ld) // passes the object it received straight on
+func (n *c06Node) ConsumeMetrics(ctx context.Context, d pmetric.Metrics) error {
+	return n.handle(ctx, d, func(ctx context.Context) error { return n.next.(consumer.Metrics).ConsumeMetrics(ctx, d) })
+}
+
+func (n *c06Node) ConsumeTraces(ctx context.Context, d ptrace.Traces) error {
+	return n.handle(ctx, d, func(ctx context.Context) error { return n.next.(consumer.Traces).ConsumeTraces(ctx, d) })
+}
+
+func (n *c06Node) ConsumeProfiles(ctx context.Context, d pprofile.Profiles) error {
+	return n.handle(ctx, d, func(ctx context.Context) error { return n.next.(xconsumer.Profiles).ConsumeProfiles(ctx, d) })
 }
 
 var (
@@ -112,8 +236,8 @@ var (
 
 type c06Pipe struct {
 	name  string
-	recv  []string // receiver or connector names
-	procs []string
+	recv  []string // receiver and connector names
+	procs []string // without the probe
 	exps  []string // exporter names and connector names
 }
 
@@ -132,18 +256,117 @@ func c06Bits(names []string) string {
 	return sb.String()
 }
 
-// TestVerifC06Graph: two-level fan-out on graphs built by the real graph.Build.
-//   (1) exact differential: MutatesData advertised by every pipeline's capabilities node vs. the model
-//   (2) direct oracle: each exporter sees exactly the tags of the mutating stages on its own path,
+func c06BoolBits(bs []bool) string {
+	if len(bs) == 0 {
+		return "-"
+	}
+	var sb strings.Builder
+	for _, b := range bs {
+		sb.WriteByte("01"[vB(b)])
+	}
+	return sb.String()
+}
+
+func c06Factories(w *c06World) (receiver.Factory, processor.Factory, exporter.Factory, connector.Factory) {
+	cfg := func() component.Config { return &struct{}{} }
+	st := component.StabilityLevelStable
+	rf := xreceiver.NewFactory(c06R, cfg,
+		xreceiver.WithLogs(func(_ context.Context, s receiver.Settings, _ component.Config, next consumer.Logs) (receiver.Logs, error) {
+			w.recvNext[s.ID.Name()] = next
+			return c06Comp{}, nil
+		}, st),
+		xreceiver.WithMetrics(func(_ context.Context, s receiver.Settings, _ component.Config, next consumer.Metrics) (receiver.Metrics, error) {
+			w.recvNext[s.ID.Name()] = next
+			return c06Comp{}, nil
+		}, st),
+		xreceiver.WithTraces(func(_ context.Context, s receiver.Settings, _ component.Config, next consumer.Traces) (receiver.Traces, error) {
+			w.recvNext[s.ID.Name()] = next
+			return c06Comp{}, nil
+		}, st),
+		xreceiver.WithProfiles(func(_ context.Context, s receiver.Settings, _ component.Config, next xconsumer.Profiles) (xreceiver.Profiles, error) {
+			w.recvNext[s.ID.Name()] = next
+			return c06Comp{}, nil
+		}, st))
+	proc := func(name string, next any) *c06Node {
+		k := byte('p')
+		if name[0] == 'q' {
+			k = 'q'
+		}
+		return &c06Node{w: w, kind: k, name: name, next: next}
+	}
+	pf := xprocessor.NewFactory(c06P, cfg,
+		xprocessor.WithLogs(func(_ context.Context, s processor.Settings, _ component.Config, next consumer.Logs) (processor.Logs, error) {
+			return proc(s.ID.Name(), next), nil
+		}, st),
+		xprocessor.WithMetrics(func(_ context.Context, s processor.Settings, _ component.Config, next consumer.Metrics) (processor.Metrics, error) {
+			return proc(s.ID.Name(), next), nil
+		}, st),
+		xprocessor.WithTraces(func(_ context.Context, s processor.Settings, _ component.Config, next consumer.Traces) (processor.Traces, error) {
+			return proc(s.ID.Name(), next), nil
+		}, st),
+		xprocessor.WithProfiles(func(_ context.Context, s processor.Settings, _ component.Config, next xconsumer.Profiles) (xprocessor.Profiles, error) {
+			return proc(s.ID.Name(), next), nil
+		}, st))
+	ef := xexporter.NewFactory(c06E, cfg,
+		xexporter.WithLogs(func(_ context.Context, s exporter.Settings, _ component.Config) (exporter.Logs, error) {
+			return &c06Node{w: w, kind: 'e', name: s.ID.Name()}, nil
+		}, st),
+		xexporter.WithMetrics(func(_ context.Context, s exporter.Settings, _ component.Config) (exporter.Metrics, error) {
+			return &c06Node{w: w, kind: 'e', name: s.ID.Name()}, nil
+		}, st),
+		xexporter.WithTraces(func(_ context.Context, s exporter.Settings, _ component.Config) (exporter.Traces, error) {
+			return &c06Node{w: w, kind: 'e', name: s.ID.Name()}, nil
+		}, st),
+		xexporter.WithProfiles(func(_ context.Context, s exporter.Settings, _ component.Config) (xexporter.Profiles, error) {
+			return &c06Node{w: w, kind: 'e', name: s.ID.Name()}, nil
+		}, st))
+	cf := xconnector.NewFactory(c06C, cfg,
+		xconnector.WithLogsToLogs(func(_ context.Context, s connector.Settings, _ component.Config, next consumer.Logs) (connector.Logs, error) {
+			return &c06Node{w: w, kind: 'c', name: s.ID.Name(), next: next}, nil
+		}, st),
+		xconnector.WithMetricsToMetrics(func(_ context.Context, s connector.Settings, _ component.Config, next consumer.Metrics) (connector.Metrics, error) {
+			return &c06Node{w: w, kind: 'c', name: s.ID.Name(), next: next}, nil
+		}, st),
+		xconnector.WithTracesToTraces(func(_ context.Context, s connector.Settings, _ component.Config, next consumer.Traces) (connector.Traces, error) {
+			return &c06Node{w: w, kind: 'c', name: s.ID.Name(), next: next}, nil
+		}, st),
+		xconnector.WithProfilesToProfiles(func(_ context.Context, s connector.Settings, _ component.Config, next xconsumer.Profiles) (xconnector.Profiles, error) {
+			return &c06Node{w: w, kind: 'c', name: s.ID.Name(), next: next}, nil
+		}, st))
+	return rf, pf, ef, cf
+}
+
+func c06Inject(w *c06World, next any, ctx context.Context, d any) error {
+	switch w.sg.name {
+	case "logs":
+		return next.(consumer.Logs).ConsumeLogs(ctx, d.(plog.Logs))
+	case "metrics":
+		return next.(consumer.Metrics).ConsumeMetrics(ctx, d.(pmetric.Metrics))
+	case "traces":
+		return next.(consumer.Traces).ConsumeTraces(ctx, d.(ptrace.Traces))
+	default:
+		return next.(xconsumer.Profiles).ConsumeProfiles(ctx, d.(pprofile.Profiles))
+	}
+}
+
+// TestVerifC06Graph: multi-level fan-out on graphs built by the real graph.Build, for all four signals: random DAGs of
+// pipelines (1-2 receivers, pipelines with several sources, connector chains up to the number of pipelines, connectors fed by
+// several pipelines, exporters shared between pipelines).
+//   (1) exact differential: MutatesData advertised by every pipeline's capabilities node vs. the model;
+//   (2) exact differential on every fan-out call (source -> pipelines, pipeline -> exporters/connectors): the order-independent
+//       summary of who is handed which object with which read-only flag (C06_seen_ro, C06_origMut) + identity oracles;
+//   (3) direct oracle: each exporter sees exactly the tags of the mutating stages on its own path(s),
 //       at call time and after everything (including its siblings) has finished.
 func TestVerifC06Graph(t *testing.T) {
 	out := vOpen(t)
 	defer out.Close()
 	out.Linef("model c06-graph 1")
+	sigs := c06Sigs()
 	n := vN(300)
 	for _, c := range vCases(n) {
 		rnd := vRand(c)
 		out.Linef("case %d", c)
+		sg := sigs[rnd.IntN(len(sigs))]
 		nameSeq := 0
 		fresh := func(prefix string, mut bool) string {
 			nameSeq++
@@ -153,55 +376,108 @@ func TestVerifC06Graph(t *testing.T) {
 			}
 			return s
 		}
-		pmut := func() bool { return rnd.IntN(3) == 0 }
-		var pipes []*c06Pipe
+		recvs := []string{"r1"}
+		if rnd.IntN(3) == 0 {
+			recvs = append(recvs, "r2")
+		}
+		np := 1 + rnd.IntN(6)
+		pipes := make([]*c06Pipe, np)
 		var connNames, expNames, procNames []string
-		mkPipe := func(recv []string) *c06Pipe {
-			p := &c06Pipe{name: fmt.Sprintf("pl%d", len(pipes)), recv: recv}
+		connOwner := map[string][]int{} // connector -> pipelines that list it as exporter
+		for i := range pipes {
+			p := &c06Pipe{name: fmt.Sprintf("pl%d", i)}
+			pipes[i] = p
+			procNames = append(procNames, "q"+p.name)
 			for k := rnd.IntN(4); k > 0; k-- {
-				pn := fresh("p", pmut())
+				pn := fresh("p", rnd.IntN(3) == 0)
 				p.procs = append(p.procs, pn)
 				procNames = append(procNames, pn)
 			}
-			for k := 1 + rnd.IntN(3); k > 0; k-- {
+			for k := rnd.IntN(4); k > 0; k-- {
+				if len(expNames) > 0 && rnd.IntN(4) == 0 {
+					// an exporter shared with an earlier pipeline (one instance, called once per path)
+					en := expNames[rnd.IntN(len(expNames))]
+					dup := false
+					for _, e := range p.exps {
+						dup = dup || e == en
+					}
+					if !dup {
+						p.exps = append(p.exps, en)
+					}
+					continue
+				}
 				en := fresh("e", rnd.IntN(4) == 0)
 				p.exps = append(p.exps, en)
 				expNames = append(expNames, en)
 			}
-			pipes = append(pipes, p)
-			return p
-		}
-		top := 1 + rnd.IntN(4)
-		for i := 0; i < top; i++ {
-			p := mkPipe([]string{"r1"})
-			if rnd.IntN(3) == 0 {
-				cn := fresh("c", rnd.IntN(4) == 0)
-				connNames = append(connNames, cn)
-				if rnd.IntN(4) == 0 {
-					expNames = expNames[:len(expNames)-len(p.exps)]
-					p.exps = []string{cn} // connector as the only exporter
-				} else {
-					p.exps = append(p.exps, cn)
+			// sources: the first pipeline is fed by receivers; later ones by a receiver and/or connectors of EARLIER pipelines
+			if i == 0 || rnd.IntN(3) == 0 {
+				p.recv = append(p.recv, recvs[rnd.IntN(len(recvs))])
+				if len(recvs) > 1 && rnd.IntN(3) == 0 {
+					other := recvs[0]
+					if p.recv[0] == other {
+						other = recvs[1]
+					}
+					p.recv = append(p.recv, other)
 				}
-				for k := 1 + rnd.IntN(2); k > 0; k-- {
-					mkPipe([]string{cn})
+			}
+			if i > 0 {
+				for k := 0; k < 2; k++ {
+					if len(p.recv) > 0 && (k == 1 || rnd.IntN(2) == 0) && rnd.IntN(3) != 0 {
+						continue
+					}
+					var cn string
+					if len(connNames) > 0 && rnd.IntN(2) == 0 {
+						cn = connNames[rnd.IntN(len(connNames))] // a connector that already feeds another pipeline
+					} else {
+						cn = fresh("c", rnd.IntN(4) == 0)
+						connNames = append(connNames, cn)
+						j := rnd.IntN(i)
+						connOwner[cn] = append(connOwner[cn], j)
+						pipes[j].exps = append(pipes[j].exps, cn)
+						if rnd.IntN(4) == 0 {
+							// fan-in: a second earlier pipeline feeds the same connector
+							j2 := rnd.IntN(i)
+							if j2 != j {
+								connOwner[cn] = append(connOwner[cn], j2)
+								pipes[j2].exps = append(pipes[j2].exps, cn)
+							}
+						}
+					}
+					dup := false
+					for _, r := range p.recv {
+						dup = dup || r == cn
+					}
+					if !dup {
+						p.recv = append(p.recv, cn)
+					}
 				}
 			}
 		}
-		w := &c06World{recvNext: map[string]consumer.Logs{}, atCall: map[string][]string{}, held: map[string][]plog.Logs{}}
-		rf := receiver.NewFactory(c06R, func() component.Config { return &struct{}{} }, receiver.WithLogs(func(_ context.Context, s receiver.Settings, _ component.Config, next consumer.Logs) (receiver.Logs, error) {
-			w.recvNext[s.ID.Name()] = next
-			return c06Comp{}, nil
-		}, component.StabilityLevelStable))
-		pf := processor.NewFactory(c06P, func() component.Config { return &struct{}{} }, processor.WithLogs(func(_ context.Context, s processor.Settings, _ component.Config, next consumer.Logs) (processor.Logs, error) {
-			return &c06Proc{name: s.ID.Name(), next: next}, nil
-		}, component.StabilityLevelStable))
-		ef := exporter.NewFactory(c06E, func() component.Config { return &struct{}{} }, exporter.WithLogs(func(_ context.Context, s exporter.Settings, _ component.Config) (exporter.Logs, error) {
-			return &c06Exp{w: w, name: s.ID.Name()}, nil
-		}, component.StabilityLevelStable))
-		cf := connector.NewFactory(c06C, func() component.Config { return &struct{}{} }, connector.WithLogsToLogs(func(_ context.Context, s connector.Settings, _ component.Config, next consumer.Logs) (connector.Logs, error) {
-			return &c06Conn{name: s.ID.Name(), next: next}, nil
-		}, component.StabilityLevelStable))
+		// every pipeline needs at least one exporter
+		for _, p := range pipes {
+			if len(p.exps) == 0 {
+				en := fresh("e", rnd.IntN(4) == 0)
+				p.exps = append(p.exps, en)
+				expNames = append(expNames, en)
+			}
+		}
+		usedRecv := map[string]bool{}
+		for _, p := range pipes {
+			for _, r := range p.recv {
+				if r[0] == 'r' {
+					usedRecv[r] = true
+				}
+			}
+		}
+		var recvNames []string
+		for _, r := range recvs {
+			if usedRecv[r] {
+				recvNames = append(recvNames, r)
+			}
+		}
+		w := &c06World{sg: sg, recvNext: map[string]any{}, calls: map[string][]c06Call{}, fans: map[string]*c06Fan{}}
+		rf, pf, ef, cf := c06Factories(w)
 		mk := func(ty component.Type, names []string) map[component.ID]component.Config {
 			m := map[component.ID]component.Config{}
 			for _, n := range names {
@@ -212,18 +488,19 @@ func TestVerifC06Graph(t *testing.T) {
 		toIDs := func(names []string) []component.ID {
 			var o []component.ID
 			for _, n := range names {
-				ty := map[byte]component.Type{'r': c06R, 'p': c06P, 'e': c06E, 'c': c06C}[n[0]]
+				ty := map[byte]component.Type{'r': c06R, 'p': c06P, 'q': c06P, 'e': c06E, 'c': c06C}[n[0]]
 				o = append(o, component.MustNewIDWithName(ty.String(), n))
 			}
 			return o
 		}
 		pcs := pipelines.Config{}
 		for _, p := range pipes {
-			pcs[pipeline.NewIDWithName(pipeline.SignalLogs, p.name)] = &pipelines.PipelineConfig{Receivers: toIDs(p.recv), Processors: toIDs(p.procs), Exporters: toIDs(p.exps)}
+			pcs[pipeline.NewIDWithName(sg.sig, p.name)] = &pipelines.PipelineConfig{Receivers: toIDs(p.recv),
+				Processors: toIDs(append([]string{"q" + p.name}, p.procs...)), Exporters: toIDs(p.exps)}
 		}
 		set := Settings{
 			Telemetry: componenttest.NewNopTelemetrySettings(), BuildInfo: component.NewDefaultBuildInfo(),
-			ReceiverBuilder:  builders.NewReceiver(mk(c06R, []string{"r1"}), map[component.Type]receiver.Factory{c06R: rf}),
+			ReceiverBuilder:  builders.NewReceiver(mk(c06R, recvNames), map[component.Type]receiver.Factory{c06R: rf}),
 			ProcessorBuilder: builders.NewProcessor(mk(c06P, procNames), map[component.Type]processor.Factory{c06P: pf}),
 			ExporterBuilder:  builders.NewExporter(mk(c06E, expNames), map[component.Type]exporter.Factory{c06E: ef}),
 			ConnectorBuilder: builders.NewConnector(mk(c06C, connNames), map[component.Type]connector.Factory{c06C: cf}),
@@ -231,55 +508,61 @@ func TestVerifC06Graph(t *testing.T) {
 		}
 		g, err := Build(context.Background(), set)
 		if err != nil {
-			out.Linef("viol sig=C06/graph/build-failed %s", vHex(err.Error()))
+			out.Linef("viol sig=C06/graph/build-failed signal=%s %s", sg.name, vHex(err.Error()))
 			out.Linef("end")
 			continue
 		}
-		// (1) advertised capability per pipeline, leaves first so the model knows the next pipelines of a connector
+		// (1) advertised capability per pipeline, leaves first (connectors only feed later pipelines) so that the model knows
+		// the next pipelines of a connector
 		byConn := map[string][]*c06Pipe{}
 		for _, p := range pipes {
-			if p.recv[0][0] == 'c' {
-				byConn[p.recv[0]] = append(byConn[p.recv[0]], p)
+			for _, r := range p.recv {
+				if r[0] == 'c' {
+					byConn[r] = append(byConn[r], p)
+				}
 			}
 		}
-		order := append([]*c06Pipe{}, pipes...)
-		sort.SliceStable(order, func(i, j int) bool { return (order[i].recv[0][0] == 'c') && (order[j].recv[0][0] != 'c') })
+		implCap := map[string]bool{}
 		mixed := false
-		for _, p := range order {
-			var plain []string
-			conns := "-"
+		for i := len(pipes) - 1; i >= 0; i-- {
+			p := pipes[i]
+			var plain, conns []string
 			for _, e := range p.exps {
 				if e[0] == 'c' {
 					var nx []string
 					for _, q := range byConn[e] {
 						nx = append(nx, q.name)
 					}
-					conns = fmt.Sprintf("%d:%s", vB(c06Mut(e)), strings.Join(nx, ","))
+					conns = append(conns, fmt.Sprintf("%d:%s", vB(c06Mut(e)), strings.Join(nx, ",")))
 				} else {
 					plain = append(plain, e)
 				}
 			}
-			out.Linef("op pipe id=%s procs=%s exps=%s conn=%s", p.name, c06Bits(p.procs), c06Bits(plain), conns)
-			capNode := g.pipelines[pipeline.NewIDWithName(pipeline.SignalLogs, p.name)].capabilitiesNode
-			out.Linef("obs cap %d", vB(capNode.Capabilities().MutatesData))
+			cs := "-"
+			if len(conns) > 0 {
+				cs = strings.Join(conns, ";")
+			}
+			out.Linef("op pipe id=%s procs=%s exps=%s conn=%s", p.name, c06Bits(p.procs), c06Bits(plain), cs)
+			capNode := g.pipelines[pipeline.NewIDWithName(sg.sig, p.name)].capabilitiesNode
+			implCap[p.name] = capNode.Capabilities().MutatesData
+			out.Linef("obs cap %d", vB(implCap[p.name]))
 			bs := c06Bits(append(append([]string{}, p.procs...), plain...))
 			if strings.Contains(bs, "0") && strings.Contains(bs, "1") {
 				mixed = true
 			}
 		}
-		// (2) inject one payload at the receiver
-		ld := plog.NewLogs()
-		ld.ResourceLogs().AppendEmpty().Resource().Attributes().PutStr("trail", "")
-		c06Panics = nil
-		if err := w.recvNext["r1"].ConsumeLogs(context.Background(), ld); err != nil {
-			out.Linef("viol sig=C06/graph/consume-error %s", vHex(err.Error()))
+		// capability a connector advertises as a consumer: its own or that of any pipeline it feeds (aggregateCap)
+		connCap := func(cn string) bool {
+			m := c06Mut(cn)
+			for _, q := range byConn[cn] {
+				m = m || implCap[q.name]
+			}
+			return m
 		}
-		for _, tag := range c06Panics {
-			out.Linef("viol sig=C06/graph/declared-mutator-got-readonly-data component=%s", tag)
-		}
-		var pathOf func(p *c06Pipe, prefix string)
-		want := map[string]string{}
-		pathOf = func(p *c06Pipe, prefix string) {
+		// expected trails: walk every path from every receiver
+		want := map[string][]string{}
+		var walk func(p *c06Pipe, prefix string)
+		walk = func(p *c06Pipe, prefix string) {
 			tr := prefix
 			for _, pr := range p.procs {
 				if c06Mut(pr) {
@@ -293,34 +576,107 @@ func TestVerifC06Graph(t *testing.T) {
 						t2 += ">" + e
 					}
 					for _, q := range byConn[e] {
-						pathOf(q, t2)
+						walk(q, t2)
 					}
 				} else {
-					want[e] = tr
+					want[e] = append(want[e], tr)
 				}
 			}
 		}
-		for _, p := range pipes {
-			if p.recv[0] == "r1" {
-				pathOf(p, "")
+		// (2) inject one payload at every receiver
+		for _, r := range recvNames {
+			d := sg.newData()
+			inRO := rnd.IntN(3) == 0
+			if inRO {
+				sg.markRO(d)
+			}
+			w.seq++
+			id := fmt.Sprintf("hop:%s#%d", r, w.seq)
+			w.fan(id, c06Ptr(d), inRO)
+			if err := c06Inject(w, w.recvNext[r], context.WithValue(context.Background(), c06HopKey, id), d); err != nil {
+				out.Linef("viol sig=C06/graph/consume-error signal=%s %s", sg.name, vHex(err.Error()))
+			}
+			for _, p := range pipes {
+				for _, s := range p.recv {
+					if s == r {
+						walk(p, "")
+					}
+				}
 			}
 		}
-		for _, e := range expNames {
-			seen := w.atCall[e]
-			if len(seen) != 1 {
-				out.Linef("viol sig=C06/graph/exporter-call-count exporter=%s calls=%d", e, len(seen))
+		for _, tag := range w.panics {
+			out.Linef("viol sig=C06/graph/declared-mutator-got-readonly-data component=%s signal=%s", tag, sg.name)
+		}
+		// every fan-out call against the model, consumers in name order
+		nfans := 0
+		for _, id := range w.fanOrder {
+			f := w.fans[id]
+			if len(f.entries) == 0 {
 				continue
 			}
-			if seen[0] != want[e] {
-				out.Linef("viol sig=C06/graph/exporter-sees-foreign-mutation-at-call exporter=%s saw=%s want=%s", e, vHex(seen[0]), vHex(want[e]))
+			nfans++
+			es := append([]c06Entry{}, f.entries...)
+			sort.SliceStable(es, func(i, j int) bool { return es[i].who < es[j].who })
+			caps := make([]bool, len(es))
+			ros := make([]bool, len(es))
+			origMut := 0
+			for i, e := range es {
+				switch {
+				case strings.HasPrefix(id, "hop:"):
+					caps[i] = implCap[e.who]
+				case e.who[0] == 'c':
+					caps[i] = connCap(e.who)
+				default:
+					caps[i] = c06Mut(e.who)
+				}
+				ros[i] = e.ro
+				if caps[i] && e.ptr == f.srcPtr {
+					origMut++
+				}
 			}
-			after := c06Trail(w.held[e][0])
-			wantAfter := want[e]
-			if c06Mut(e) {
-				wantAfter += ">" + e
+			out.Linef("op hop caps=%s ro=%d", c06BoolBits(caps), vB(f.srcRO))
+			out.Linef("obs hop ro=%s origmut=%d", c06BoolBits(ros), origMut)
+			// identity oracles (C06_exclusive / C06_readonly_gets_orig): non-mutating consumers share the source's object,
+			// a mutating consumer's object is held by nobody else in this call
+			for i, e := range es {
+				if !caps[i] && e.ptr != f.srcPtr {
+					out.Linef("viol sig=C06/graph/non-mutating-consumer-not-handed-the-original fan=%s consumer=%s signal=%s", strings.SplitN(id, "#", 2)[0], e.who, sg.name)
+				}
+				if caps[i] {
+					for j, e2 := range es {
+						if j != i && e2.ptr == e.ptr {
+							out.Linef("viol sig=C06/graph/mutating-consumer-shares-its-object fan=%s consumer=%s with=%s signal=%s", strings.SplitN(id, "#", 2)[0], e.who, e2.who, sg.name)
+						}
+					}
+				}
 			}
-			if after != wantAfter {
-				out.Linef("viol sig=C06/graph/exporter-sees-foreign-mutation-later exporter=%s saw=%s want=%s", e, vHex(after), vHex(wantAfter))
+		}
+		// (3) trails
+		for _, e := range expNames {
+			calls := w.calls[e]
+			var seen []string
+			for _, cl := range calls {
+				seen = append(seen, cl.trail)
+			}
+			wantE := append([]string{}, want[e]...)
+			sort.Strings(seen)
+			sort.Strings(wantE)
+			if len(seen) != len(wantE) {
+				out.Linef("viol sig=C06/graph/exporter-call-count exporter=%s calls=%d want=%d signal=%s", e, len(seen), len(wantE), sg.name)
+				continue
+			}
+			if strings.Join(seen, "|") != strings.Join(wantE, "|") {
+				out.Linef("viol sig=C06/graph/exporter-sees-foreign-mutation-at-call exporter=%s signal=%s saw=%s want=%s", e, sg.name, vHex(strings.Join(seen, "|")), vHex(strings.Join(wantE, "|")))
+			}
+			for _, cl := range calls {
+				after := w.trail(cl.data)
+				wantAfter := cl.trail
+				if c06Mut(e) {
+					wantAfter += ">" + e
+				}
+				if after != wantAfter {
+					out.Linef("viol sig=C06/graph/exporter-sees-foreign-mutation-later exporter=%s signal=%s saw=%s want=%s", e, sg.name, vHex(after), vHex(wantAfter))
+				}
 			}
 		}
 		if mixed && len(pipes) > 1 {
@@ -328,6 +684,8 @@ func TestVerifC06Graph(t *testing.T) {
 		}
 		out.Linef("stat pipelines %d", len(pipes))
 		out.Linef("stat connectors %d", len(connNames))
+		out.Linef("stat signal_%s 1", sg.name)
+		out.Linef("stat fanout_calls %d", nfans)
 		out.Linef("end")
 		out.Flush()
 	}
